@@ -64,8 +64,20 @@ def config_tabulate(cfg_text, binary=False):
     from atsim.potentials.config import Configuration
     tab = Configuration().read(io.StringIO(cfg_text))
     buf = io.BytesIO() if binary else io.StringIO()
+    _REWRITE[0] += 1
+    if _REWRITE[0] % 3 == 0:
+        # every third tabulation read from a file is walked and written once into a throw-away stream first: what is returned is then its SECOND write - an object
+        # built by Configuration may be written any number of times (round-8 seed C05_14: a factory handing the tabulation a one-shot iterator)
+        for attr in ("potentials", "eam_potentials"):
+            if hasattr(tab, attr):
+                for _ in getattr(tab, attr):
+                    pass
+        tab.write(io.BytesIO() if binary else io.StringIO())
     tab.write(buf)
     return buf.getvalue()
+
+
+_REWRITE = [0]
 
 
 def potable_cli(cfg_text, args=(), want_output=True, binary=False):
